@@ -24,7 +24,8 @@ IsErr(r) == "err" \in DOMAIN r
 NoPc  == [open |-> FALSE, guid |-> "", proto |-> <<>>, pts |-> <<>>, reals |-> <<>>, meta |-> <<>>]
 NoImg == [open |-> FALSE, guid |-> "", reps |-> <<>>, meta |-> <<>>]
 EmptyScene == [guid |-> "", root |-> <<>>, exts |-> <<>>, blobs |-> <<>>, pcs |-> <<>>, images |-> <<>>,
-               pc |-> NoPc, im |-> NoImg, fin |-> FALSE, dead |-> FALSE, custom |-> FALSE]
+               pc |-> NoPc, im |-> NoImg, fin |-> FALSE, dead |-> FALSE, custom |-> FALSE,
+               foreign |-> FALSE]     \* foreign: the file was not written by the crate's writer (s_scene)
 
 EInit == sc = EmptyScene /\ file = [img |-> <<>>, L |-> <<>>, xml |-> <<>>] /\ res = Ok(0)
 
